@@ -72,6 +72,14 @@ def step (op : String) (gs : List (List Int)) : String :=
   | "cdiv", [sa, da, sb, db] => run do
     let a ← toCx sa da; let b ← toCx sb db
     return fmtCx (cdivT a b)
+  | "sdiv", [sa, da, sb, db] => run do
+    let a ← toReal sa da; let b ← toReal sb db
+    return fmtReal (safeDivT a b)
+  | "modif", [sa, da, [ax]] => run do
+    let a ← toReal sa da
+    if !(inRange a.shape.length ax) then throw "IndexError"
+    let (isC, r) := modSqIfComplex a ax
+    return (if isC then "ok 1 | " else "ok 0 | ") ++ ((fmtReal r).drop 3).toString
   | "modsq", [sa, da, [ax]] => run do
     let a ← toReal sa da
     if !(inRange a.shape.length ax) then throw "IndexError"
